@@ -1,0 +1,9 @@
+//go:build verif
+// +build verif
+
+package coordinator
+
+// VerifRunOnce runs exactly one coordination cycle (verification hook, build tag "verif").
+func (c *Coordinator) VerifRunOnce() error {
+	return c.runOnce()
+}
